@@ -95,6 +95,15 @@ CHECKS = {
          "autocomplete / autocomplete+docgen+batteries / dull-color / bright-color and the outcome lines (class, value, "
          "monochrome help and error text) are compared pairwise, plus the model differential on the reference build.",
          "4/C20", "Rocq proof (feature switches inert in the model) + five feature builds of the harness diffed on one corpus"),
+ "C11": ("proof", "PARTIAL by nature. Theorems in coq/Props/C11.v about the model of run / print_message / exit_code / current_args: "
+         "status 0 exactly for value/help/version/completion and 1 exactly for failures (exit_code regenerated from "
+         "src/error.rs), help/version/completion on stdout only, failures on stderr only with the non-empty `Error: ` prefix, "
+         "the body is reached iff a value was produced, the program name is the UTF-8 file name of argv[0]. That a real "
+         "process behaves so cannot be a theorem (write(2), buffering, process::exit live in the OS): it is established by the "
+         "tie -- every case is run in-process (run_inner with the documented name) and as a spawned child that calls the real "
+         "OptionParser::run() with raw byte argv and argv[0] variants; (status, stdout, stderr, body sentinel) must be exactly "
+         "what the in-process outcome predicts; plus the model differential.",
+         "4/C11", "Rocq proof (status/stream table over the regenerated exit_code) + real child processes compared with the in-process prediction"),
 }
 
 NA_REASON = "check not built yet in this revision (machinery under construction; see DESIGN.md section 7 staging)"
